@@ -665,6 +665,9 @@ func (se *SpecEnv) evalCall(x *ECall) Value {
 		}
 		rv := se.e.heapGet(se.s, se.e.rangeMap, arr(se.e.rangeKeySort, "Bool"))
 		return boolV(sel2(rv, k.T))
+	case "strUpper":
+		// the value strings.ToUpper(s) as the executor models it (calls.go)
+		return Value{T: app("supper", se.eval(x.Args[0]).T), Sort: "Str", GoT: types.Typ[types.String]}
 	case "strLower":
 		se.e.ctx.declFun("str.lower", []string{"Str"}, "Str")
 		return Value{T: app("str.lower", se.eval(x.Args[0]).T), Sort: "Str", GoT: types.Typ[types.String]}
